@@ -87,9 +87,21 @@ def run_case(case):
         os.makedirs(d1)
         os.makedirs(d2)
         if case["mode"] == "present":
-            lines = [s.text() for s, _ in flat_lines(p)]
+            fl = flat_lines(p)
+            lines = [s.text() for s, _ in fl]
             n = len(lines)
             runs = choose_runs(n, rng, rng.randint(1, 3))
+            # a file boundary INSIDE a construct: an include file that ends with the opening
+            # statement of a construct (block constructs, labelled and non-block DO), so that
+            # the block matcher back-tracks across the boundary
+            openers = [i for i, (s_, _) in enumerate(fl) if s_.role == "open" and s_.cons not in ("program", "module", "submodule", "subroutine", "function", "blockdata", "interface", "type", "enum") and i > 0]
+            if openers and rng.random() < 0.6:
+                op = rng.choice(openers)
+                a = max(1, op - rng.randint(0, 2))
+                extra = (a, op + 1)
+                if not any(not (extra[1] <= x or extra[0] >= y) for x, y in runs):
+                    runs = sorted(runs + [extra])
+                    res["counts"]["boundary-after-opener"] = 1
             files = {}
             main = []
             pos = 0
